@@ -10,6 +10,8 @@ C04 / C05 / C03 / C06 / C07:
    llh2xyz   -> FwdAny  the closed form (sines / cosines from the specification's series) within 1 um    (Trace_Cart)
    geo2grid / grid2geo -> TMA  the EXACT Transverse Mercator at the position involved: easting / northing 0.2 mm,
                       scale factor 2e-8, convergence 1e-9 deg                                           (Trace_Grid)
+   dec2hp, hp2dec, ... (20 conversion routines, sampled: the tests call them 3 million times)
+             -> one edge of Angles.tla: kind, same angle within 1e-8", same sign, valid HP digits         (Trace_Angles)
    conform7  -> C7    similarity formula within 1 um, covariance = J Q J^T                             (Trace_Helmert)
    conform14 -> C14   parameters advanced linearly to the epoch, 2 um                                  (Trace_Helmert)
     ./check REPOTESTS quick|thorough        (both tiers run the whole suite; it takes ~15 s)
@@ -25,6 +27,29 @@ from fractions import Fraction
 
 from harness import fix, tlc, tracecheck
 from harness.props import c11
+
+
+ANGLE_FNS = {"dec2hp": ("dec", "hp"), "dec2hpa": ("dec", "hpa"), "dec2gon": ("dec", "gon"), "dec2gona": ("dec", "gona"),
+             "dec2dms": ("dec", "dms"), "dec2ddm": ("dec", "ddm"), "hp2dec": ("hp", "dec"), "hp2deca": ("hp", "deca"),
+             "hp2rad": ("hp", "rad"), "hp2gon": ("hp", "gon"), "hp2gona": ("hp", "gona"), "hp2dms": ("hp", "dms"),
+             "hp2ddm": ("hp", "ddm"), "gon2dec": ("gon", "dec"), "gon2deca": ("gon", "deca"), "gon2hp": ("gon", "hp"),
+             "gon2hpa": ("gon", "hpa"), "gon2rad": ("gon", "rad"), "gon2dms": ("gon", "dms"), "gon2ddm": ("gon", "ddm")}
+
+
+def rebuild_angle(res, an):
+    """recorded result -> float or an angle object with exactly the recorded fields"""
+    if isinstance(res, dict) and "f" in res:
+        return float.fromhex(res["f"])
+    t, f = res["angle"], res["fields"]
+    if t == "DECAngle":
+        return an.DECAngle(float.fromhex(f[0]))
+    if t == "HPAngle":
+        return an.HPAngle(float.fromhex(f[0]))
+    if t == "GONAngle":
+        return an.GONAngle(float.fromhex(f[0]))
+    if t == "DMSAngle":
+        return an.DMSAngle(f[1], f[2], float.fromhex(f[3]), positive=f[0])
+    return an.DDMAngle(f[1], float.fromhex(f[2]), positive=f[0])
 
 
 def fl(x):
@@ -84,7 +109,8 @@ def run(ctx):
     ctx.extra["repository_tests"] = tail
     if rc != 0 or not recs:
         raise tlc.MachineryError("the repository's test-suite did not run clean under the recorder: %s" % tail)
-    geo, cart, helm, grid = [], [], [], []
+    import geodepy.angles as an
+    geo, cart, helm, grid, angl = [], [], [], [], []
     skipped = {}
 
     def skip(why):
@@ -137,6 +163,30 @@ def run(ctx):
             la, lo = fl(a[0]), fl(a[1])
             h = fl(a[2]) if len(a) > 2 and a[2] is not None else (fl(k["ellht"]) if k.get("ellht") is not None else 0.0)
             cart.append({"ev": [c03.fwdany_event(cv, rec["name"], E, la, lo, h, out=[fl(x) for x in r["res"]])], "src": r})
+        elif fn in ANGLE_FNS:
+            # a conversion routine of geodepy.angles: one edge of Angles.tla (Trace_Angles: kind, same angle 1e-8", same sign, valid HP)
+            from harness.props import c08
+            src, dst = ANGLE_FNS[fn]
+            x = a[0]
+            if not (isinstance(x, dict) and "f" in x):
+                skip("angle routine called with a non-float argument")
+                continue
+            v0 = float.fromhex(x["f"])
+            out = rebuild_angle(r["res"], an)
+            try:
+                kind0, asec0, hp0 = c08.decode(v0, src)
+                kind, asec, hp = c08.decode(out, dst)
+            except Exception:
+                skip("angle value not decodable (invalid HP input the test expected to be refused)")
+                continue
+            if abs(asec0) > 720 * 3600:
+                skip("angle beyond 720 degrees")
+                continue
+            a0, o = c08.to_nano(asec0), c08.to_nano(asec)
+            ev = {"a": fn, "exc": "", "kind": kind if kind != "float64" else "float", "neg": o[0], "w": o[1], "f": o[2],
+                  "hp": hp if hp is not None else [0, 0, 0, 0], "srcsame": True}
+            angl.append({"rep": src, "ang": {"neg": a0[0], "w": a0[1], "f": a0[2]}, "fan": False, "pt": [0, 0, 0], "below": False,
+                         "chain": [fn], "ev": [ev], "src": r})
         elif fn in ("geo2grid", "grid2geo"):
             # both directions as the exact Transverse Mercator at the geographic position involved (event TMA of Trace_Grid):
             # geo2grid: position = arguments, grid = result;  grid2geo: grid = arguments, position = result (rounded at 1e-11 deg)
@@ -200,7 +250,7 @@ def run(ctx):
             helm.append({"kind": "recorded", "ev": [ev], "src": r})
     ctx.extra["recorded_calls"] = len(recs)
     ctx.extra["not_judged"] = skipped
-    n = {"geodesic": len(geo), "xyz2llh_llh2xyz": len(cart), "helmert": len(helm), "geo2grid_grid2geo": len(grid)}
+    n = {"geodesic": len(geo), "xyz2llh_llh2xyz": len(cart), "helmert": len(helm), "geo2grid_grid2geo": len(grid), "angle_conversions": len(angl)}
     ctx.extra["judged"] = n
     strip = lambda ts: [{kk: v for kk, v in t.items() if kk != "src"} for t in ts]
     allf = []
@@ -218,6 +268,10 @@ def run(ctx):
             # the exact projection judges eastings / northings / scale factor / convergence; a grid2geo result is a position rounded at
             # 1e-11 deg (1 um), inside the 0.2 mm
             allf.append((grid[i], c))
+    if angl:
+        fails, _ = tracecheck.validate("Trace_Angles", "Trace_Angles.cfg", strip(angl), ctx, "Trace_Angles on recorded calls", min_chunk=500,
+                                       timeout=3000)
+        allf += [(angl[i], c) for (i, l, c) in fails]
     if helm:
         d = tempfile.mkdtemp(prefix="gvf_helm_")
         try:
@@ -230,7 +284,7 @@ def run(ctx):
     for t, clause in allf:
         ctx.violation({"clause": clause, "fn": t["src"]["fn"]}, "test=%s call=%s" % (t["src"]["test"], json.dumps(t["src"])[:600]),
                       case={"call": t["src"]})
-    for t in geo + cart + helm + grid:
+    for t in geo + cart + helm + grid + angl:
         ctx.nontrivial(json.dumps(t["src"], sort_keys=True)[:300])
         ctx.actions[t["src"]["fn"]] = ctx.actions.get(t["src"]["fn"], 0) + 1
     ctx.selftest(selftest, [t for t in geo if t["ev"][0]["k"] == "DGE" and not any(t is x for x, _ in allf)])
